@@ -132,7 +132,7 @@ class C16Check:
     rule = ("each run = one generated contract with 1-3 check functions, each a decision tree of depth 2-4 over three arguments with "
             "predicates drawn from a pool containing solver-only contradictions (so unsatisfiable assertion-failing paths with unsat cores "
             "of many shapes share prefixes with satisfiable ones), run by run_contract under the simulator with --cache-solver, branching "
-            "`unknown` rate 0.3/1.0, 1-4 solver threads, seeded solver latencies (they decide when a core becomes visible), gc.collect() "
+            "`unknown` for every branching query (so infeasible paths survive identically in both twins), 1-4 solver threads, seeded solver latencies (they decide when a core becomes visible), gc.collect() "
             "injected between paths and tests, both solvers. Oracles: (i) every query answered from the cache is re-solved by the "
             "truthful solver - `sat` is a violation; (ii) twin run of the same contract with the cache off under its own schedule: "
             "verdict and number of counterexamples per test must be equal; distinct = distinct (contract hash, event-log digest); "
@@ -157,9 +157,10 @@ class C16Check:
 
         import halmos.__main__ as hm
 
-        solver = ch.choose(["yices", "yices", "z3"], "sw.solver")
+        solver = ch.choose(["yices", "yices", "yices", "yices", "yices", "z3"], "sw.solver")
         threads = ch.choose([1, 1, 2, 4], "sw.threads")
-        unknown_rate = ch.choose([0.3, 1.0], "sw.unk")
+        # every branching query is answered `unknown` (a sampled rate would give the two twins different explorations)
+        unknown_rate = 1.0
         gc_rate = ch.choose([0.0, 0.5, 1.0], "sw.gc")
         core_fault = ch.choose([None, None, "core_missing", "core_garbled", "core_empty"], "sw.corefault")
         case = TreeCase(ch)
